@@ -492,3 +492,36 @@ V("C16", "right-outer-primary", "fire", "C16.R6", "right outer join keeps the le
   (WSF, "    if join == 'right outer':\n        primary_items, secondary_items = right_items, left_items", "    if join == 'right outer ':\n        primary_items, secondary_items = right_items, left_items"))
 V("C02", "main-pdf-normal", "fire", "C02.R3", "logpdf evaluates data and parameters exchanged",
   (PDFF, "            result = self.make_pdf(pars).log_prob(data)", "            result = self.make_pdf(data).log_prob(pars)"))
+
+# ------------------------------------------------------------------ round 2: rules added after the seeded changes
+SE = "src/pyhf/modifiers/staterror.py"
+V("C01", "staterror-access-contiguous", "fire", "C01.R8", "staterror access field assumes the modifier's bins are contiguous",
+  (SE, "                access_field_for_syst_and_batch[sample_mask] = selection\n", "                first_bin = list(sample_mask).index(True)\n                access_field_for_syst_and_batch[first_bin : first_bin + len(selection)] = selection\n"))
+V("C01", "shapesys-access-first-sample", "fire", "C01.R8", "shapesys takes the mask of the FIRST sample instead of a carrying one",
+  ("src/pyhf/modifiers/shapesys.py", "                sample_mask = self._shapesys_mask[syst_index][singular_sample_index][0]", "                sample_mask = self._shapesys_mask[syst_index][0][0]"))
+V("C01", "shapefactor-access-global-bin", "fire", "C01.R8", "shapefactor indexes its parameters by global bin position",
+  ("src/pyhf/modifiers/shapefactor.py", "                for b, bin_access in enumerate(batch_access):\n                    self._access_field[s, t, b] = (\n                        selection[bin_access] if bin_access < len(selection) else 0\n                    )", "                for b, bin_access in enumerate(batch_access):\n                    self._access_field[s, t, b] = (\n                        selection[b] if b < len(selection) else 0\n                    )"))
+V("C01", "staterror-access-any-order", "silent", "", "carrying-sample search written with a loop variable of another name",
+  (SE, "                for idx, syst in enumerate(\n                    default_backend.astensor(self._staterror_mask)[syst_index, :, 0]\n                )\n                if any(syst)", "                for idx, sample_row in enumerate(\n                    default_backend.astensor(self._staterror_mask)[syst_index, :, 0]\n                )\n                if any(sample_row)"))
+V("C02", "staterror-own-nominal-guard", "fire", "C02.R7", "a sample with zero nominal drops its uncertainty from the quadrature sum",
+  (SE, "                            if nomsall[binnr] > 0\n", "                            if nomsall[binnr] > 0\n                            and modifier_data['data']['nom_data'][binnr] > 0\n"))
+V("C02", "staterror-nomsall-all-samples", "fire", "C02.R7", "total nominal summed over samples that do not carry the modifier",
+  (SE, "                    if default_backend.astensor(modifier_data['data']['mask']).any()\n", ""))
+V("C02", "staterror-linear-sum", "fire", "C02.R7", "relative uncertainties added linearly",
+  (SE, "                            (modifier_data['data']['uncrt'][binnr] / nomsall[binnr])\n                            ** 2\n", "                            (modifier_data['data']['uncrt'][binnr] / nomsall[binnr])\n                            ** 1\n"))
+V("C02", "poisson-factors-from-auxdata", "fire", "C02.R3", "Poisson rate factors taken from the (overridable) auxiliary data",
+  ("src/pyhf/constraints.py", "poisson_constraint_rate_factors.append(parset.factors)", "poisson_constraint_rate_factors.append(parset.auxdata)"))
+V("C02", "gaussian-default-width-2", "fire", "C02.R3", "paramsets without widths get width 2",
+  ("src/pyhf/constraints.py", "normal_constraint_sigmas.append([1.0] * len(thisauxdata))", "normal_constraint_sigmas.append([2.0] * len(thisauxdata))"))
+V("C02", "gaussian-start-index-late", "fire", "C02.R3", "running data offset advanced only for Gaussian paramsets",
+  ("src/pyhf/constraints.py", "            thisauxdata = self.data_indices[start_index:end_index]\n            start_index = end_index\n            if not parset.pdf_type == 'normal':\n                continue\n", "            thisauxdata = self.data_indices[start_index:end_index]\n            if not parset.pdf_type == 'normal':\n                continue\n            start_index = end_index\n"))
+V("C04", "torch-poisson-clamped", "fire", "C04.R1", "hand-written torch Poisson log-mass with a clamped rate",
+  ("src/pyhf/tensor/pytorch_backend.py", "        return torch.distributions.Poisson(lam, validate_args=False).log_prob(n)\n\n    def poisson(self", "        return n * torch.log(torch.clamp(lam, min=1e-30)) - lam - torch.lgamma(n + 1.0)\n\n    def poisson(self"))
+V("C04", "torch-poisson-reference-form", "silent", "", "hand-written torch Poisson log-mass in the reference form",
+  ("src/pyhf/tensor/pytorch_backend.py", "        return torch.distributions.Poisson(lam, validate_args=False).log_prob(n)\n\n    def poisson(self", "        return torch.xlogy(n, lam) - lam - torch.lgamma(n + 1.0)\n\n    def poisson(self"))
+OC = "src/pyhf/optimize/common.py"
+V("C05", "bounds-del-in-loop", "fire", "C05.R3", "bounds of fixed parameters deleted one by one with shifting indices",
+  (OC, "        variable_bounds = [par_bounds[i] for i in variable_idx]\n", "        variable_bounds = list(par_bounds)\n        for i in fixed_idx:\n            del variable_bounds[i]\n"))
+V("C05", "stitcher-cached-by-index", "fire", "C05.R4", "stitcher remembered per (model, fixed indices) across fits",
+  (OC, "from pyhf.tensor.common import _TensorViewer\n", "from pyhf.tensor.common import _TensorViewer\n\n_stitchers = {}\n"),
+  (OC, "        stitch_pars = _make_stitch_pars(tv, fixed_values)\n", "        stitch_pars = _stitchers.setdefault((id(pdf), tuple(fixed_idx)), _make_stitch_pars(tv, fixed_values))\n"))
